@@ -75,12 +75,12 @@ Definition p4_code (H idx full : Z) (e : est) (newL : Z) : Z :=
 Definition junk_ok (j : option Z) : Prop := match j with None => True | Some w => w = 255 \/ 0 <= w < 128 end.
 
 Definition step_ok (L : Z) (st : Z * Z * option Z) : Prop :=
-  let '(newL, probe, junk) := st in L < newL <= 57 /\ 0 <= probe /\ junk_ok junk.
+  let '(newL, probe, junk) := st in L < newL <= 63 /\ 0 <= probe /\ junk_ok junk.
 
 Fixpoint steps_ok (L : Z) (steps : list (Z * Z * option Z)) : Prop :=
   match steps with [] => True | st :: r => step_ok L st /\ steps_ok (fst (fst st)) r end.
 
-Lemma p4_mk_known q c h L probe junk : 0 <= L <= 57 -> 0 <= probe -> qof L = q ->
+Lemma p4_mk_known q c h L probe junk : 0 <= L <= 63 -> 0 <= probe -> qof L = q ->
   c = h \/ c = known q h -> p4_mk c L probe junk = p4_mk h L probe junk.
 Proof.
   intros HL Hp Hq [->| ->]; [reflexivity|]. unfold p4_mk. f_equal.
@@ -91,7 +91,7 @@ Qed.
 
 (* one growth step: the code GetHashCodePart returns (full getter = true hash h) is h or its known bits of the NEW class *)
 Lemma p4_code_step H idx h L probe junk newL : 0 <= idx -> idx < H - 1 - idx -> H <= 8 -> 0 <= h < 2 ^ 64 ->
-  0 <= L <= 57 -> 0 <= newL <= 57 -> 0 <= probe -> junk_ok junk ->
+  0 <= L <= 63 -> 0 <= newL <= 63 -> 0 <= probe -> junk_ok junk ->
   let c := p4_code H idx h (p4_mk h L probe junk) newL in c = h \/ c = known (qof newL) h.
 Proof.
   intros Hi Hslot HH Hh HL HnL Hp Hj. cbv zeta. unfold p4_code, p4_mk. cbn [eL ebidx esh ev].
@@ -125,7 +125,7 @@ Fixpoint p4_chain_rehash (h : Z) (e : est) (steps : list (Z * Z * option Z)) : l
 (* chain_placement_equiv (LimP4): after ANY chain of growth steps the element's bucket, short hash and hash-probe byte
    are exactly those a full rehash at every step would produce *)
 Theorem p4_chain_placement_equiv H idx h : 0 <= idx -> idx < H - 1 - idx -> H <= 8 -> 0 <= h < 2 ^ 64 ->
-  forall steps L probe junk, 0 <= L <= 57 -> 0 <= probe -> junk_ok junk -> steps_ok L steps ->
+  forall steps L probe junk, 0 <= L <= 63 -> 0 <= probe -> junk_ok junk -> steps_ok L steps ->
     p4_chain_reuse H idx h (p4_mk h L probe junk) steps = p4_chain_rehash h (p4_mk h L probe junk) steps.
 Proof.
   intros Hi Hslot HH Hh. induction steps as [|[[newL probe'] junk'] r IH]; intros L probe junk HL Hp Hj Hs; [reflexivity|].
@@ -149,11 +149,11 @@ Definition o2_code (idx full : Z) (e : est) (newL : Z) : outcome Z :=
 Definition o2_eqv (e1 e2 : est) : Prop :=
   eL e1 = eL e2 /\ ebidx e1 = ebidx e2 /\ esh e1 = esh e2 /\ 0 <= ev e1 < 256 /\ ((eL e1 + 7) mod 8 <> 0 -> ev e1 = ev e2).
 
-Definition o2_step_ok (L : Z) (st : Z * Z) : Prop := L < fst st <= 57 /\ 0 <= snd st.
+Definition o2_step_ok (L : Z) (st : Z * Z) : Prop := L < fst st <= 63 /\ 0 <= snd st.
 Fixpoint o2_steps_ok (L : Z) (steps : list (Z * Z)) : Prop :=
   match steps with [] => True | st :: r => o2_step_ok L st /\ o2_steps_ok (fst st) r end.
 
-Lemma o2_mk_known q c h L probe : 0 <= L <= 57 -> 0 <= probe -> qof L = q ->
+Lemma o2_mk_known q c h L probe : 0 <= L <= 63 -> 0 <= probe -> qof L = q ->
   c = h \/ c = known q h -> o2_eqv (o2_mk c L probe) (o2_mk h L probe).
 Proof.
   intros HL Hp Hq Hc. unfold o2_eqv, o2_mk. cbn [eL ebidx esh ev].
@@ -165,7 +165,7 @@ Proof.
   - intros Hnz. apply o2_byte_known; try lia.
 Qed.
 
-Lemma o2_code_step idx h e L probe newL : 0 <= h < 2 ^ 64 -> 0 <= L <= 57 -> L < newL <= 57 -> 0 <= probe ->
+Lemma o2_code_step idx h e L probe newL : 0 <= h < 2 ^ 64 -> 0 <= L <= 63 -> L < newL <= 63 -> 0 <= probe ->
   o2_eqv e (o2_mk h L probe) ->
   exists c, o2_code idx h e newL = Ok c /\ (c = h \/ c = known (qof newL) h).
 Proof.
@@ -207,7 +207,7 @@ Fixpoint o2_chain_rehash (h : Z) (e : est) (steps : list (Z * Z)) : list est :=
 (* chain_placement_equiv (Open2N2): along ANY chain of growth steps no assertion of GetHashCodePart fails and the element
    always gets the bucket and short hash (and every live hash-probe byte) a full rehash would give it *)
 Theorem o2_chain_placement_equiv idx h : 0 <= h < 2 ^ 64 ->
-  forall steps e L probe, 0 <= L <= 57 -> 0 <= probe -> o2_eqv e (o2_mk h L probe) -> o2_steps_ok L steps ->
+  forall steps e L probe, 0 <= L <= 63 -> 0 <= probe -> o2_eqv e (o2_mk h L probe) -> o2_steps_ok L steps ->
     exists l, o2_chain_reuse idx h e steps = Ok l /\ Forall2 o2_eqv l (o2_chain_rehash h (o2_mk h L probe) steps).
 Proof.
   intros Hh. induction steps as [|[newL probe'] r IH]; intros e L probe HL Hp He Hs.
@@ -255,12 +255,12 @@ Proof.
 Qed.
 
 (* ------------------------------------------------------------------ non-vacuity *)
-Lemma p4_nonvacuous : exists h L newL probe, 0 <= h < 2 ^ 64 /\ 0 <= L <= 57 /\ L < newL <= 57 /\ 0 <= probe /\
+Lemma p4_nonvacuous : exists h L newL probe, 0 <= h < 2 ^ 64 /\ 0 <= L <= 63 /\ L < newL <= 63 /\ 0 <= probe /\
   p4_full_used (p4_byte h L probe) L newL = false /\ known (qof L) h <> h /\
   p4_code 4 0 h (p4_mk h L probe None) newL = known (qof L) h.
 Proof. exists 81985529216486895, 11, 12, 1. vm_compute. repeat split; try discriminate; reflexivity. Qed.
 
-Lemma o2_nonvacuous : exists h L newL probe, 0 <= h < 2 ^ 64 /\ 0 <= L <= 57 /\ L < newL <= 57 /\ 0 <= probe /\
+Lemma o2_nonvacuous : exists h L newL probe, 0 <= h < 2 ^ 64 /\ 0 <= L <= 63 /\ L < newL <= 63 /\ 0 <= probe /\
   o2_full_used (o2_byte h L probe) L newL = false /\ known (qof L) h <> h /\
   o2_code 2 h (o2_mk h L probe) newL = Ok (known (qof L) h).
 Proof. exists 81985529216486895, 11, 15, 2. vm_compute. repeat split; try discriminate; reflexivity. Qed.
